@@ -82,7 +82,13 @@ func (e *storeSeq) Gen(r *Rand, thorough bool, idx int) Case {
 		n = 80
 	}
 
-	c := Case{Header: fmt.Sprintf("# engine=store-seq flavour=%s nsaware=%d case=%d", flav, nsaware, idx)}
+	// every third case runs over a backing store that rejects the writes marked bsfail=1
+	bs := 0
+	if idx%3 == 2 {
+		bs = 1
+	}
+
+	c := Case{Header: fmt.Sprintf("# engine=store-seq flavour=%s nsaware=%d bs=%d case=%d", flav, nsaware, bs, idx)}
 	// shadow of what probably exists, only to bias the generator towards valid ops
 	shadow := map[string]*shadowRes{}
 	key := func(ns, typ, id string) string {
@@ -223,6 +229,14 @@ func (e *storeSeq) Gen(r *Rand, thorough bool, idx int) Case {
 		}
 	}
 
+	if bs == 1 {
+		for i, op := range c.Ops {
+			if name := opName(op); (name == "create" || name == "update" || name == "destroy") && r.Chance(1, 8) {
+				c.Ops[i] = op + " bsfail=1"
+			}
+		}
+	}
+
 	return c
 }
 
@@ -241,6 +255,20 @@ func NewFlavour(flav string) state.CoreState { //nolint:ireturn
 		return inmem.NewState("n1")
 	case "namespaced":
 		return namespaced.NewState(inmem.Build)
+	default:
+		panic("unknown flavour " + flav)
+	}
+}
+
+// NewFlavourBS is NewFlavour over a backing store.
+func NewFlavourBS(flav string, bs inmem.BackingStore) state.CoreState { //nolint:ireturn
+	build := inmem.NewStateWithOptions(inmem.WithBackingStore(bs))
+
+	switch flav {
+	case "inmem":
+		return build("n1")
+	case "namespaced":
+		return namespaced.NewState(func(ns resource.Namespace) state.CoreState { return build(ns) })
 	default:
 		panic("unknown flavour " + flav)
 	}
@@ -356,6 +384,11 @@ func (e *storeSeq) Exec(t *testing.T, c Case) []string {
 		defer cancel()
 
 		st := NewFlavour(h["flavour"])
+		wbs := &watchBackingStore{}
+
+		if h["bs"] == "1" {
+			st = NewFlavourBS(h["flavour"], wbs)
+		}
 
 		for _, line := range c.Ops {
 			_, a := ParseLine(line)
@@ -363,7 +396,9 @@ func (e *storeSeq) Exec(t *testing.T, c Case) []string {
 				time.Sleep(d)
 			}
 
+			wbs.fail = a["bsfail"] == "1"
 			out = append(out, ExecStoreOp(ctx, st, line))
+			wbs.fail = false
 		}
 	})
 
